@@ -18,7 +18,7 @@ function, method (with receiver kind), package variable and constant, its numeri
 package variables it reads and its writes through parameters or the receiver (including in-place
 `sort.*`/`copy`/`append`). The entries behind the digest are in `shape_expected.txt` and in a
 comment of the generated file. -/
-def stateC20 : List (String × String) := [("globals:stats", "ErrMismatchedSamples ErrSampleSize ErrSamplesEqual ErrZeroVariance MannWhitneyExactLimit MannWhitneyTiesExactLimit StdNormal _KDEBoundaryMethod_index _KDEKernel_index _LocationHypothesis_index inf nan quantileCIApproxThreshold"), ("globals:mathx", "nan smallFact"), ("globals:vec", ""), ("globals:fit", ""), ("globals:scale", ""), ("globals:graph", ""), ("globals:graphalg", ""), ("globals:graphout", ""), ("globalwrites:stats", "MannWhitneyUTest:StdNormal.CDF"), ("globalwrites:mathx", ""), ("globalwrites:vec", ""), ("globalwrites:fit", ""), ("globalwrites:scale", ""), ("globalwrites:graph", ""), ("globalwrites:graphalg", ""), ("globalwrites:graphout", ""), ("fields:stats.Sample", "Xs:[]float64 Weights:[]float64 Sorted:bool"), ("fields:stats.KDE", "Sample:Sample Kernel:KDEKernel Bandwidth:float64 BoundaryMethod:KDEBoundaryMethod BoundaryMin:float64 BoundaryMax:float64"), ("fields:stats.UDist", "N1:int N2:int T:[]int"), ("fields:stats.StreamStats", "Count:uint Total:float64 Min:float64 Max:float64 mean:float64 meanOfSquares:float64 vM2:float64"), ("fields:stats.LinearHist", "min:float64 max:float64 delta:float64 low:uint high:uint bins:[]uint"), ("fields:scale.Linear", "Min:float64 Max:float64 Base:int Clamp:bool"), ("fields:scale.Log", "private:struct{} Min:float64 Max:float64 Base:int Clamp:bool"), ("fields:graphalg.NodeMarks", "marks:[]uint32"), ("fields:fit.PolynomialRegressionResult", "Coefficients:[]float64 F:func(xfloat64)float64"), ("shape:C20", "n=249 fnv64a=ffd3c01ec37b549e")]
+def stateC20 : List (String × String) := [("globals:stats", "ErrMismatchedSamples ErrSampleSize ErrSamplesEqual ErrZeroVariance MannWhitneyExactLimit MannWhitneyTiesExactLimit StdNormal _KDEBoundaryMethod_index _KDEKernel_index _LocationHypothesis_index inf nan quantileCIApproxThreshold"), ("globals:mathx", "nan smallFact"), ("globals:vec", ""), ("globals:fit", ""), ("globals:scale", ""), ("globals:graph", ""), ("globals:graphalg", ""), ("globals:graphout", ""), ("globalwrites:stats", "MannWhitneyUTest:StdNormal.CDF"), ("globalwrites:mathx", ""), ("globalwrites:vec", ""), ("globalwrites:fit", ""), ("globalwrites:scale", ""), ("globalwrites:graph", ""), ("globalwrites:graphalg", ""), ("globalwrites:graphout", ""), ("fields:stats.Sample", "Xs:[]float64 Weights:[]float64 Sorted:bool"), ("fields:stats.KDE", "Sample:Sample Kernel:KDEKernel Bandwidth:float64 BoundaryMethod:KDEBoundaryMethod BoundaryMin:float64 BoundaryMax:float64"), ("fields:stats.UDist", "N1:int N2:int T:[]int"), ("fields:stats.StreamStats", "Count:uint Total:float64 Min:float64 Max:float64 mean:float64 meanOfSquares:float64 vM2:float64"), ("fields:stats.LinearHist", "min:float64 max:float64 delta:float64 low:uint high:uint bins:[]uint"), ("fields:scale.Linear", "Min:float64 Max:float64 Base:int Clamp:bool"), ("fields:scale.Log", "private:struct{} Min:float64 Max:float64 Base:int Clamp:bool"), ("fields:graphalg.NodeMarks", "marks:[]uint32"), ("fields:fit.PolynomialRegressionResult", "Coefficients:[]float64 F:func(xfloat64)float64"), ("shape:C20", "n=249 fnv64a=461733b92b642870")]
 
 /-- the source has exactly the package-level variables, writers and struct fields the model accounts for -/
 theorem state_C20 : holdsAll stateC20 = true := by decide +kernel
